@@ -71,6 +71,294 @@ def httpx_newline_chars(notes: list[str]) -> str:
     return ""
 
 
+def _lean_str(s: str) -> str:
+    out = ['"']
+    for ch in s:
+        if ch == '"':
+            out.append('\\"')
+        elif ch == "\\":
+            out.append("\\\\")
+        elif 32 <= ord(ch) < 127:
+            out.append(ch)
+        else:
+            out.append("\\u{%x}" % ord(ch))
+    out.append('"')
+    return "".join(out)
+
+
+def _lean_strs(xs: list[str]) -> str:
+    return "[" + ", ".join(_lean_str(x) for x in xs) + "]"
+
+
+def _body(fn: ast.AST) -> list[ast.stmt]:
+    """statements of a function without its docstring"""
+    body = list(fn.body)  # type: ignore[attr-defined]
+    if body and isinstance(body[0], ast.Expr) and isinstance(body[0].value, ast.Constant) and isinstance(body[0].value.value, str):
+        body = body[1:]
+    return body
+
+
+def _name(n: ast.AST | None) -> str | None:
+    return n.id if isinstance(n, ast.Name) else None
+
+
+def _dotted(n: ast.AST | None) -> str:
+    if isinstance(n, ast.Name):
+        return n.id
+    if isinstance(n, ast.Attribute):
+        return _dotted(n.value) + "." + n.attr
+    return "?"
+
+
+def iter_lines_shape(tree: ast.AST, helper_name: str | None) -> list[str]:
+    """Structure of the client's own line iterator, free of local names:
+    buffer = ""; async for text in <resp>.aiter_text(): buffer += text;
+    *lines, buffer = buffer.split(<sep>); for line in lines: yield line; [after the loop] if buffer: yield buffer"""
+    if helper_name is None:
+        return ["?no-helper"]
+    fn = None
+    for m in getattr(tree, "body", []):
+        if isinstance(m, (ast.FunctionDef, ast.AsyncFunctionDef)) and m.name == helper_name:
+            fn = m
+    if fn is None:
+        return ["?no-helper"]
+    toks: list[str] = []
+    toks.append("params=%d" % len(fn.args.args))
+    body = _body(fn)
+    buf = None
+    if body and isinstance(body[0], ast.Assign) and len(body[0].targets) == 1 and _name(body[0].targets[0]) \
+            and isinstance(body[0].value, ast.Constant) and body[0].value.value == "":
+        buf = _name(body[0].targets[0])
+        toks.append("buffer=''")
+    else:
+        toks.append("?init")
+    rest = body[1:] if buf else body
+    if len(rest) == 2 and isinstance(rest[0], ast.AsyncFor) and not rest[0].orelse:
+        loop = rest[0]
+        text = _name(loop.target)
+        it = loop.iter
+        if isinstance(it, ast.Call) and isinstance(it.func, ast.Attribute) and it.func.attr == "aiter_text" and not it.args \
+                and _name(it.func.value) == fn.args.args[0].arg:
+            toks.append("for text in response.aiter_text()")
+        else:
+            toks.append("?iter")
+        lb = loop.body
+        ok = len(lb) == 3
+        if ok and isinstance(lb[0], ast.AugAssign) and isinstance(lb[0].op, ast.Add) and _name(lb[0].target) == buf \
+                and _name(lb[0].value) == text:
+            toks.append("buffer+=text")
+        else:
+            toks.append("?append")
+        lines = None
+        if ok and isinstance(lb[1], ast.Assign) and len(lb[1].targets) == 1 and isinstance(lb[1].targets[0], ast.Tuple) \
+                and len(lb[1].targets[0].elts) == 2 and isinstance(lb[1].targets[0].elts[0], ast.Starred) \
+                and _name(lb[1].targets[0].elts[1]) == buf and isinstance(lb[1].value, ast.Call) \
+                and isinstance(lb[1].value.func, ast.Attribute) and lb[1].value.func.attr == "split" \
+                and _name(lb[1].value.func.value) == buf and len(lb[1].value.args) == 1 and not lb[1].value.keywords \
+                and isinstance(lb[1].value.args[0], ast.Constant):
+            lines = _name(lb[1].targets[0].elts[0].value)
+            toks.append("*lines,buffer=buffer.split(sep)")
+        else:
+            toks.append("?split")
+        if ok and lines and isinstance(lb[2], ast.For) and not lb[2].orelse and _name(lb[2].iter) == lines \
+                and len(lb[2].body) == 1 and isinstance(lb[2].body[0], ast.Expr) and isinstance(lb[2].body[0].value, ast.Yield) \
+                and _name(lb[2].body[0].value.value) == _name(lb[2].target):
+            toks.append("for line in lines: yield line")
+        else:
+            toks.append("?yield-lines")
+        tail = rest[1]
+        if isinstance(tail, ast.If) and not tail.orelse and _name(tail.test) == buf and len(tail.body) == 1 \
+                and isinstance(tail.body[0], ast.Expr) and isinstance(tail.body[0].value, ast.Yield) \
+                and _name(tail.body[0].value.value) == buf:
+            toks.append("if buffer: yield buffer")
+        else:
+            toks.append("?tail")
+    else:
+        toks.append("?body")
+    return toks
+
+
+def consumer_shape(tree: ast.AST) -> list[str]:
+    """`EventStream`: where `last_sequence` comes from and when it moves, relative to the `yield`."""
+    cls = None
+    for m in getattr(tree, "body", []):
+        if isinstance(m, ast.ClassDef) and m.name == "EventStream":
+            cls = m
+    if cls is None:
+        return ["?no-EventStream"]
+    toks: list[str] = []
+    init = _find_def(cls, "__init__")
+    third = init.args.args[3].arg if init is not None and len(init.args.args) >= 4 else None  # type: ignore[attr-defined]
+    attr = None
+    if init is not None and third is not None:
+        for n in ast.walk(init):
+            tgt = n.targets[0] if isinstance(n, ast.Assign) and len(n.targets) == 1 else (n.target if isinstance(n, ast.AnnAssign) else None)
+            if tgt is not None and isinstance(tgt, ast.Attribute) and _name(tgt.value) == "self" and _name(getattr(n, "value", None)) == third:
+                attr = tgt.attr
+    toks.append("init: self.<last> = <third argument>" if attr else "?init")
+    prop = _find_def(cls, "last_sequence")
+    pb = _body(prop) if prop is not None else []
+    if attr and len(pb) == 1 and isinstance(pb[0], ast.Return) and isinstance(pb[0].value, ast.Attribute) \
+            and pb[0].value.attr == attr and _name(pb[0].value.value) == "self":
+        toks.append("last_sequence: return self.<last>")
+    else:
+        toks.append("?property")
+    it = _find_def(cls, "_iterate")
+    loop = None
+    if it is not None:
+        for n in ast.walk(it):
+            if isinstance(n, ast.While) and isinstance(n.test, ast.Constant) and n.test.value is True:
+                loop = n
+                break
+    if loop is None:
+        toks.append("?loop")
+        return toks
+    item = None
+    for st in loop.body:
+        if isinstance(st, ast.Assign) and isinstance(st.value, ast.Await) and isinstance(st.value.value, ast.Call) \
+                and _dotted(st.value.value.func).endswith("_queue.get"):
+            item = _name(st.targets[0])
+            toks.append("item = await queue.get()")
+        elif isinstance(st, ast.If) and isinstance(st.test, ast.Call) and _name(st.test.func) == "isinstance" and len(st.body) == 1:
+            kind = _dotted(st.test.args[1])
+            act = st.body[0]
+            if isinstance(act, ast.Return) and act.value is None:
+                toks.append(f"{kind}: return")
+            elif isinstance(act, ast.Raise) and isinstance(act.exc, ast.Attribute) and _name(act.exc.value) == item:
+                toks.append(f"{kind}: raise item.{act.exc.attr}")
+            else:
+                toks.append(f"{kind}: ?")
+        elif isinstance(st, ast.Assign) and len(st.targets) == 1 and isinstance(st.targets[0], ast.Attribute) \
+                and st.targets[0].attr == attr and isinstance(st.value, ast.Attribute) and _name(st.value.value) == item:
+            toks.append(f"self.<last> = item.{st.value.attr}")
+        elif isinstance(st, ast.Expr) and isinstance(st.value, ast.Yield) and isinstance(st.value.value, ast.Attribute) \
+                and _name(st.value.value.value) == item:
+            toks.append(f"yield item.{st.value.value.attr}")
+        else:
+            toks.append("?" + type(st).__name__)
+    return toks
+
+
+def loop_shape(gwe: ast.AST | None, reader: ast.AST | None) -> tuple[list[str], list[tuple[int, str]], list[tuple[str, str]]]:
+    """The reconnect loop: how the cursor enters and leaves the reader, the status dispatch, the
+    exception handlers in order, where the failure counter is reset / incremented / compared."""
+    toks: list[str] = []
+    dispatch: list[tuple[int, str]] = []
+    handlers: list[tuple[str, str]] = []
+    if gwe is None or reader is None:
+        return ["?no-reader"], dispatch, handlers
+    # EventStream(queue, None, after_sequence)
+    for n in ast.walk(gwe):
+        if isinstance(n, ast.Call) and _name(n.func) == "EventStream" and len(n.args) == 3:
+            toks.append("EventStream(_, _, %s)" % (_name(n.args[2]) or "?"))
+    cursor = None
+    counter = None
+    top = {id(st) for st in _body(reader)}
+    for st in _body(reader):
+        tgt = st.targets[0] if isinstance(st, ast.Assign) and len(st.targets) == 1 else (st.target if isinstance(st, ast.AnnAssign) else None)
+        val = getattr(st, "value", None)
+        if tgt is not None and _name(val) == "after_sequence":
+            cursor = _name(tgt)
+            toks.append("cursor = after_sequence")
+        if tgt is not None and isinstance(val, ast.Constant) and val.value == 0 and not isinstance(val.value, bool):
+            counter = _name(tgt)
+            toks.append("counter = 0")
+    for n in _ordered(reader):
+        if isinstance(n, ast.Dict):
+            for k, v in zip(n.keys, n.values):
+                if isinstance(k, ast.Constant) and k.value == "after_sequence":
+                    if isinstance(v, ast.Call) and _name(v.func) == "str" and len(v.args) == 1 and _name(v.args[0]) == cursor and cursor:
+                        toks.append("send after_sequence=str(cursor)")
+                    else:
+                        toks.append("?send")
+        if isinstance(n, ast.If):
+            t = n.test
+            if isinstance(t, ast.Compare) and isinstance(t.left, ast.Attribute) and t.left.attr == "status_code" and len(t.ops) == 1 \
+                    and isinstance(t.ops[0], ast.Eq) and isinstance(t.comparators[0], ast.Constant) and isinstance(t.comparators[0].value, int):
+                act = "?"
+                b0 = n.body[0] if n.body else None
+                if isinstance(b0, ast.Raise) and isinstance(b0.exc, ast.Call):
+                    act = "raise " + _dotted(b0.exc.func)
+                elif isinstance(b0, ast.Expr) and isinstance(b0.value, ast.Await) and isinstance(b0.value.value, ast.Call) \
+                        and b0.value.value.args and isinstance(b0.value.value.args[0], ast.Call) \
+                        and len(n.body) == 2 and isinstance(n.body[1], ast.Return):
+                    act = "put " + _dotted(b0.value.value.args[0].func) + "; return"
+                dispatch.append((int(t.comparators[0].value), act))
+            if isinstance(t, ast.Compare) and _name(t.left) == counter and counter and len(t.ops) == 1:
+                rhs = _name(t.comparators[0]) or "?"
+                act = "?"
+                if n.body and isinstance(n.body[0], ast.Raise) and isinstance(n.body[0].exc, ast.Call):
+                    act = "raise " + _dotted(n.body[0].exc.func)
+                toks.append(f"if counter {type(t.ops[0]).__name__} {rhs}: {act}")
+        if isinstance(n, ast.Expr) and isinstance(n.value, ast.Call) and _name(n.value.func) == "_raise_for_status_with_body":
+            toks.append("raise_for_status")
+        if isinstance(n, ast.Assign) and len(n.targets) == 1 and _name(n.targets[0]) == counter and counter \
+                and isinstance(n.value, ast.Constant) and n.value.value == 0 and id(n) not in top:
+            toks.append("counter = 0")
+        if isinstance(n, ast.AugAssign) and _name(n.target) == counter and counter and isinstance(n.op, ast.Add) \
+                and isinstance(n.value, ast.Constant) and n.value.value == 1:
+            toks.append("counter += 1")
+        if isinstance(n, ast.Call) and _name(n.func) == "_QueuedEvent":
+            kw = {k.arg: _name(k.value) for k in n.keywords}
+            toks.append("queue (sequence=%s)" % ("cursor" if kw.get("sequence") == cursor and cursor else "?"))
+        if isinstance(n, ast.Assign) and len(n.targets) == 1 and _name(n.targets[0]) == cursor and cursor \
+                and isinstance(n.value, ast.Call) and _name(n.value.func) == "int":
+            toks.append("cursor = int(id)")
+        if isinstance(n, ast.Call) and isinstance(n.func, ast.Attribute) and n.func.attr == "model_validate_json":
+            toks.append("validate")
+        if isinstance(n, ast.ExceptHandler):
+            ty = n.type
+            names = [_dotted(e) for e in ty.elts] if isinstance(ty, ast.Tuple) else ([_dotted(ty)] if ty is not None else ["<bare>"])
+            b0 = n.body[0] if n.body else None
+            if isinstance(b0, ast.Raise) and isinstance(b0.exc, ast.Call):
+                act = "raise " + _dotted(b0.exc.func)
+            elif isinstance(b0, ast.AugAssign):
+                act = "count"
+            elif isinstance(b0, ast.Pass):
+                act = "pass"
+            elif isinstance(b0, ast.Expr) and isinstance(b0.value, ast.Await) and isinstance(b0.value.value, ast.Call) \
+                    and b0.value.value.args and isinstance(b0.value.value.args[0], ast.Call):
+                act = "put " + _dotted(b0.value.value.args[0].func)
+            else:
+                act = "?"
+            handlers.append((",".join(names), act))
+    return toks, dispatch, handlers
+
+
+def request_keys(reader: ast.AST | None) -> tuple[list[str], list[str]]:
+    """keys of the `params=` and `headers=` dict literals of the reader's `client.stream(...)` call
+    (a `Last-Event-ID` header would override `after_sequence` on the server)"""
+    params: list[str] = ["?"]
+    headers: list[str] = ["?"]
+    if reader is None:
+        return params, headers
+    for n in ast.walk(reader):
+        if isinstance(n, ast.Call) and isinstance(n.func, ast.Attribute) and n.func.attr == "stream":
+            for k in n.keywords:
+                if k.arg in ("params", "headers") and isinstance(k.value, ast.Dict):
+                    keys = [kk.value if isinstance(kk, ast.Constant) and isinstance(kk.value, str) else "?" for kk in k.value.keys]
+                    if k.arg == "params":
+                        params = keys
+                    else:
+                        headers = keys
+    return params, headers
+
+
+def server_done_status(tree: ast.AST | None) -> Any:
+    """`if gen is None: raise HTTPException(..., status_code=N)` in `_stream_events`"""
+    se = _find_def(tree, "_stream_events") if tree is not None else None
+    if se is None:
+        return None
+    for n in ast.walk(se):
+        if isinstance(n, ast.If) and isinstance(n.test, ast.Compare) and len(n.test.ops) == 1 and isinstance(n.test.ops[0], ast.Is) \
+                and isinstance(n.test.comparators[0], ast.Constant) and n.test.comparators[0].value is None \
+                and n.body and isinstance(n.body[0], ast.Raise) and isinstance(n.body[0].exc, ast.Call):
+            for k in n.body[0].exc.keywords:
+                if k.arg == "status_code" and isinstance(k.value, ast.Constant):
+                    return k.value.value
+    return None
+
+
 def generate(notes: list[str]) -> list[str]:
     out: list[str] = ["namespace Gen.SseClient", ""]
 
@@ -116,10 +404,21 @@ def generate(notes: list[str]) -> list[str]:
     line_source = "<missing>"
     breaks = ""
     hx = httpx_newline_chars(notes)
+    helper_name: str | None = None
+    reader_shape: list[str] = ["?unparsed"]
+    cons_shape: list[str] = ["?unparsed"]
+    lp_shape: list[str] = ["?unparsed"]
+    dispatch: list[tuple[int, str]] = []
+    handlers: list[tuple[str, str]] = []
+    req_params: list[str] = ["?"]
+    req_headers: list[str] = ["?"]
     try:
         tree = ast.parse(open(repo_path(CLIENT)).read())
         gwe = _find_def(tree, "get_workflow_events")
         reader = _find_def(gwe, "reader") if gwe is not None else None
+        cons_shape = consumer_shape(tree)
+        lp_shape, dispatch, handlers = loop_shape(gwe, reader)
+        req_params, req_headers = request_keys(reader)
         if gwe is not None:
             args = gwe.args  # type: ignore[attr-defined]
             names = [a.arg for a in args.args]
@@ -154,6 +453,7 @@ def generate(notes: list[str]) -> list[str]:
                         breaks = hx
                         break
                     if isinstance(f, ast.Name):
+                        helper_name = f.id
                         helper = None
                         for m in tree.body:
                             if isinstance(m, (ast.FunctionDef, ast.AsyncFunctionDef)) and m.name == f.id:
@@ -169,8 +469,12 @@ def generate(notes: list[str]) -> list[str]:
                                 line_source = "own-splitter"
                                 breaks = seps[0]
                         break
+        reader_shape = iter_lines_shape(tree, helper_name) if line_source != "httpx.aiter_lines" else ["httpx.aiter_lines"]
     except Exception as e:  # noqa: BLE001
         notes.append(f"gen/sseclient: cannot parse {CLIENT}: {e!r}")
+    for nm, sh in (("line iterator", reader_shape), ("EventStream", cons_shape), ("reconnect loop", lp_shape)):
+        if any(t.startswith("?") for t in sh):
+            notes.append(f"gen/sseclient: {nm} has an unexpected shape: {sh!r}")
     if len(tags) != 2:
         notes.append(f"gen/sseclient: expected two (startswith, slice) pairs in reader, found {tags!r}")
         tags = (tags + [("", 0), ("", 0)])[:2]
@@ -192,6 +496,31 @@ def generate(notes: list[str]) -> list[str]:
     out.append(f"def lineSource : String := \"{line_source}\"")
     out.append("/-- characters that end a line for the client's reader -/")
     out.append(f"def lineBreaks : List Char := {lean_chars(breaks)}")
+    out.append("/-- statement structure of the client's line iterator (`_iter_sse_lines`), local names abstracted -/")
+    out.append(f"def lineIterShape : List String := {_lean_strs(reader_shape)}")
+    out.append("/-- `EventStream`: where `last_sequence` is initialised, read and moved relative to the `yield` -/")
+    out.append(f"def consumerShape : List String := {_lean_strs(cons_shape)}")
+    out.append("/-- the reconnect loop of `reader` in source order: cursor in / sent / moved / queued, counter reset / incremented / compared -/")
+    out.append(f"def loopShape : List String := {_lean_strs(lp_shape)}")
+    if "?" in req_params or "?" in req_headers:
+        notes.append(f"gen/sseclient: params/headers of the stream request not literal dicts: {req_params!r} {req_headers!r}")
+    out.append("/-- keys of the query parameters and of the headers the reader sends with every request -/")
+    out.append(f"def requestParams : List String := {_lean_strs(req_params)}")
+    out.append(f"def requestHeaders : List String := {_lean_strs(req_headers)}")
+    out.append("/-- `response.status_code == N` branches of `reader`, in order -/")
+    out.append("def statusDispatch : List (Nat × String) := [" + ", ".join(f"({c}, {_lean_str(a)})" for c, a in dispatch if c >= 0) + "]")
+    out.append("/-- `except` clauses of `reader` in source order with what their first statement does -/")
+    out.append("def handlers : List (String × String) := [" + ", ".join(f"({_lean_str(a)}, {_lean_str(b)})" for a, b in handlers) + "]")
+    sd = None
+    try:
+        sd = server_done_status(ast.parse(open(repo_path(API)).read()))
+    except Exception as e:  # noqa: BLE001
+        notes.append(f"gen/sseclient: cannot parse {API}: {e!r}")
+    if not isinstance(sd, int) or isinstance(sd, bool) or sd < 0:
+        notes.append(f"gen/sseclient: status code of the 'handler is completed' answer not found in _stream_events: {sd!r}")
+        sd = 0
+    out.append("/-- `_stream_events`: the status of the answer when nothing is left and the run is complete -/")
+    out.append(f"def serverDoneStatus : Nat := {sd}")
     out.append("")
 
     # ---- runtime facts
@@ -199,6 +528,20 @@ def generate(notes: list[str]) -> list[str]:
     out.append("/-! from the Python runtime -/")
     out.append("/-- code points removed by `str.strip()` (`str.isspace`) -/")
     out.append(f"def pySpace : List Nat := {spaces!r}")
+
+    def _int_skips(i: int) -> bool:
+        try:
+            return int(chr(i) + "7") == 7 and int("7" + chr(i)) == 7
+        except ValueError:
+            return False
+
+    int_spaces = [i for i in range(0x110000) if not (0xD800 <= i <= 0xDFFF) and _int_skips(i)]
+    if not set(int_spaces) <= set(spaces):
+        notes.append("gen/sseclient: int() skips a character that str.strip() keeps")
+        int_spaces = []
+    out.append("/-- code points `int()` skips around the number (measured: `int(chr(c) + \"7\")` and `int(\"7\" + chr(c))` succeed);")
+    out.append("not all of `str.isspace`: U+001C..U+001F are kept -/")
+    out.append(f"def pyIntSpace : List Nat := {int_spaces!r}")
     import unicodedata
 
     ranges: list[list[int]] = []
